@@ -28,7 +28,7 @@ type C17Case struct {
 	Variant           int       `json:"variant,omitempty"`
 }
 
-var c17States = []string{"zero-stack", "freed-stack", "zero-cond", "freed-cond", "init-cond", "nil-aux"}
+var c17States = []string{"zero-stack", "freed-stack", "zero-cond", "freed-cond", "init-cond", "reinit-cond", "nil-aux"}
 
 func methodsFor(state string) []methodRef {
 	switch {
@@ -105,11 +105,25 @@ func runC17(c C17Case) (Stats, error) {
 	return runC17Inert(c)
 }
 
+// stripLogger removes the Logger=0x... field (an address) from a publicView string.
+func stripLogger(s string) string {
+	i := strings.Index(s, " Logger=")
+	if i < 0 {
+		return s
+	}
+	j := strings.Index(s[i+1:], " ")
+	if j < 0 {
+		return s[:i]
+	}
+	return s[:i] + s[i+1+j:]
+}
+
 func runC17Inert(c C17Case) (st Stats, err error) {
 	// the receiver lives behind a pointer so that pointer-receiver methods can be called too
 	var sp *stackage.Stack
 	var cp *stackage.Condition
 	var aux stackage.Auxiliary
+	reinitProblem := ""
 	if p := guard(func() {
 		switch c.State {
 		case "zero-stack":
@@ -131,9 +145,27 @@ func runC17Inert(c C17Case) (st Stats, err error) {
 		case "init-cond":
 			cp = &stackage.Condition{}
 			cp.Init()
+		case "reinit-cond":
+			// Init() on a handle that was initialised and configured (but never assembled) before: the
+			// result is an Init()-only Condition like any other - nothing set earlier survives
+			cp = &stackage.Condition{}
+			cp.Init()
+			cp.SetID("rule-7").SetCategory("cat").SetParen(true).SetNoPadding(true).SetEncap("'")
+			cp.SetAuxiliary(stackage.Auxiliary{"k": 1})
+			cp.SetErr(errAmbient)
+			cp.SetReadOnly(true)
+			cp.Init()
+			fresh := &stackage.Condition{}
+			fresh.Init()
+			if a, b := publicViewOpt(*cp, false), publicViewOpt(*fresh, false); stripLogger(a) != stripLogger(b) {
+				reinitProblem = "Init() on a configured, unassembled Condition did not start afresh: " + diffSnap(stripLogger(b), stripLogger(a))
+			}
 		}
 	}); p != "" {
 		return st, violf("setup/panic", "%s", p)
+	}
+	if reinitProblem != "" {
+		return st, violf("reinit-cond/Condition.Init", "%s", reinitProblem)
 	}
 	st.Class("state:" + c.State)
 	ms := methodsFor(c.State)
@@ -166,7 +198,7 @@ func runC17Inert(c C17Case) (st Stats, err error) {
 			alive = true
 			st.Class("initialising-call")
 		}
-		if c.State == "init-cond" || alive {
+		if c.State == "init-cond" || c.State == "reinit-cond" || alive {
 			continue // every query just has to return normally
 		}
 		if prob := zeroResultProblem(m, outs); prob != "" {
